@@ -412,6 +412,10 @@ func c07Compiled(r *harness.Run) {
 		{`, "f2", numLines=1`, "f2", 0, 1, 0},
 		{`, 8, cursorOverlapWidth=2`, "", 8, 0, 2},
 		{`, "f2", 8, numLines=1, cursorOverlapWidth=2`, "f2", 8, 1, 2},
+		{`, maxLineLength=0x6`, "", 6, 0, 0},
+		{`, numLines=0x3, cursorOverlapWidth=0x3`, "", 0, 3, 3},
+		{`, 0x7, "f2"`, "f2", 7, 0, 0},
+		{`, "f2", 0x8, numLines=0x1`, "f2", 8, 1, 0},
 	}
 	for _, s := range sp {
 		for _, defFont := range []string{"", "f2"} {
